@@ -1013,6 +1013,8 @@ def reads(poly, P):
     for k in range(3 if vs else 0):
         x = {v: dom[(i * 7 + k * 3 + (i * k) % 2) % 2] for i, v in enumerate(vs)}
         assert F(float(poly.energy(x))) == pe(P, x), ("energy", x, poly.energy(x), pe(P, x))
+        assert F(float(dimod.poly_energy(x, poly))) == pe(P, x), ("poly_energy", x, dimod.poly_energy(x, poly), pe(P, x))
+        assert [F(float(e)) for e in dimod.poly_energies([x, x], poly)] == [pe(P, x)] * 2, ("poly_energies", x)
     assert poly == dimod.BinaryPolynomial({t: float(b) for t, b in P.items()}, poly.vartype), "__eq__"
     # objects reached from it: copy, the conversions, the hising / hubo forms (each must reflect the CURRENT terms)
     cp = poly.copy()
